@@ -196,6 +196,14 @@ func concOps() []concOp {
 		{"dsm", func(sh *shared, arg int) string {
 			return hx(secp256k1.NewIdentityPoint().DoubleScalarMultBasepointVartime(sh.sc, sh.sig[1], sh.pt).CompressedBytes())
 		}},
+		{"mult_special_points", func(sh *shared, arg int) string { // shared scalars with points an implementation may special-case: G, -G, the identity, 2G (round 10)
+			g := secp256k1.NewGeneratorPoint()
+			p := []*secp256k1.Point{g, secp256k1.NewIdentityPoint().Negate(g), secp256k1.NewIdentityPoint(), secp256k1.NewIdentityPoint().Double(g)}[arg%4]
+			n := secp256k1.NewIdentityPoint
+			return hx(n().DoubleScalarMultBasepointVartime(sh.sc, sh.sig[1], p).CompressedBytes()) + hx(n().ScalarMult(sh.sc, p).CompressedBytes()) +
+				hx(n().MultiScalarMultVartime([]*secp256k1.Scalar{sh.sc, sh.sig[1]}, []*secp256k1.Point{p, g}).CompressedBytes()) +
+				hx(n().MultiScalarMult([]*secp256k1.Scalar{sh.sig[1], sh.sc}, []*secp256k1.Point{g, p}).CompressedBytes())
+		}},
 		{"encode", func(sh *shared, arg int) string {
 			x, _ := sh.pt.XBytes()
 			return hx(sh.pt.UncompressedBytes()) + hx(sh.pt.CompressedBytes()) + hx(x) + hx(sh.sc.Bytes()) + strconv.Itoa(int(sh.pt.IsYOdd()))
